@@ -133,6 +133,21 @@ class Probe : public Inner {
     template <class RhsArr>
     static void addRhs(LeafArgs& a, RhsArr& rhs) { for (size_t k = 0; k < rhs.size(); ++k) a.rhs.push_back(rhs[k]); }
 
+    // the cell arguments an operator receives as const inputs must come back bit-identical (the operator "writes only its own outputs")
+    struct ConstSnap {
+        std::vector<std::pair<const unsigned char*, std::vector<unsigned char>>> items;
+        void add(const void* p, size_t n) {
+            const unsigned char* b = static_cast<const unsigned char*>(p);
+            items.emplace_back(b, std::vector<unsigned char>(b, b + n));
+        }
+        void check(Ctx& c, const char* site, const char* what) const {
+            for (const auto& it : items) if (std::memcmp(it.first, it.second.data(), it.second.size()) != 0) {
+                c.addViolation("writeset", site, std::string("the kernel's ") + what + " changed a cell it receives as a const input");
+                return;
+            }
+        }
+    };
+
 public:
     using Inner::Inner;
     Probe(const Inner& in) : Inner(in) {}
@@ -164,7 +179,11 @@ public:
         for (long k = 0; k < n && k < long(lower.size()); ++k) ch.push_back(&lower[size_t(k)].get());
         c.onM2M(&symb, si, sc, level, ch, pos, n, &upper, sizeof(CellClass));
         checked(c);
+        ConstSnap cs;
+        using ChildType = typename std::decay<decltype(lower[0].get())>::type;
+        for (const void* p : ch) cs.add(p, sizeof(ChildType));
         Inner::M2M(symb, level, lower, upper, pos, n);
+        cs.check(c, "M2M.const-children", "M2M");
         end(c);
     }
 
@@ -180,7 +199,10 @@ public:
         using SrcType = typename std::decay<decltype(srcs[0].get())>::type;
         c.onM2L(&symb, si, sc, level, sv, pos, n, &target, sizeof(SrcType), sizeof(CellClass));
         checked(c);
+        ConstSnap cs;
+        if (!sv.empty()) for (size_t k = 0, first = size_t(c.calls.size()) % sv.size(); k < 4 && k < sv.size(); ++k) cs.add(sv[(first + k) % sv.size()], sizeof(SrcType));   // a few of the (up to 316) sources
         Inner::M2L(symb, level, srcs, pos, n, target);
+        cs.check(c, "M2L.const-sources", "M2L");
         end(c);
     }
 
@@ -195,7 +217,10 @@ public:
         for (long k = 0; k < n && k < long(lower.size()); ++k) ch.push_back(&lower[size_t(k)].get());
         c.onL2L(&symb, si, sc, level, &upper, ch, pos, n, sizeof(CellClass));
         checked(c);
+        ConstSnap cs;
+        cs.add(&upper, sizeof(CellClass));
         Inner::L2L(symb, level, upper, lower, pos, n);
+        cs.check(c, "L2L.const-parent", "L2L");
         end(c);
     }
 
